@@ -488,6 +488,8 @@ def unparse(e):
     if k == "Unary":
         return "%s%s" % (e["op"], u(e["e"]))
     if k == "Paren":
+        if e["e"].get("k") in ("Range", "Closure", "If", "Match", "Unary", "Assign"):
+            return "(%s)" % u(e["e"])
         return u(e["e"])
     if k == "Ref":
         return "&%s%s" % ("mut " if e["mut"] else "", u(e["e"]))
@@ -651,3 +653,89 @@ def fn_label(fn):
         parts.append(ow["trait"])
     parts.append(fn["name"])
     return "::".join(parts)
+
+
+# ---------------------------------------------------------------------------
+# linearised method-call facts (for ordering / guard rules)
+
+
+def linear_calls(fn_or_block):
+    """every method call / path call of a body in source order with its nesting:
+    dict(i, kind, recv, method, args, node, conds=[cond texts], loops=n, unsafe=bool)"""
+    out = []
+    body = fn_or_block.get("body", fn_or_block) if fn_or_block.get("k") == "Fn" else fn_or_block
+
+    def rec(n, conds, loops, unsafe):
+        if isinstance(n, list):
+            for x in n:
+                rec(x, conds, loops, unsafe)
+            return
+        if not isinstance(n, dict):
+            return
+        k = n.get("k")
+        if k == "If":
+            c = unparse(n["cond"]).replace(" ", "")
+            rec(n["cond"], conds, loops, unsafe)
+            rec(n["then"], conds + [c], loops, unsafe)
+            if n.get("else"):
+                rec(n["else"], conds + ["!(" + c + ")"], loops, unsafe)
+            return
+        if k == "Match":
+            rec(n["e"], conds, loops, unsafe)
+            for a in n["arms"]:
+                rec(a["body"], conds + ["match:" + unparse(a["pat"]).replace(" ", "")], loops, unsafe)
+            return
+        if k in ("For", "While", "Loop"):
+            if k == "For":
+                rec(n["iter"], conds, loops, unsafe)
+            if k == "While":
+                rec(n["cond"], conds, loops, unsafe)
+            rec(n["body"], conds, loops + 1, unsafe)
+            return
+        if k == "Unsafe":
+            rec(n["body"], conds, loops, True)
+            return
+        if k == "Closure":
+            rec(n["body"], conds, loops + 1, unsafe)
+            return
+        if k == "MethodCall":
+            rec(n["recv"], conds, loops, unsafe)
+            for a in n["args"]:
+                rec(a, conds, loops, unsafe)
+            out.append(
+                dict(
+                    kind="m",
+                    recv=unparse(n["recv"]).replace(" ", ""),
+                    method=n["method"],
+                    args=[unparse(a).replace(" ", "") for a in n["args"]],
+                    node=n,
+                    conds=list(conds),
+                    loops=loops,
+                    unsafe=unsafe,
+                )
+            )
+            return
+        if k == "Call":
+            for a in n["args"]:
+                rec(a, conds, loops, unsafe)
+            rec(n["func"], conds, loops, unsafe)
+            out.append(
+                dict(
+                    kind="c",
+                    recv="",
+                    method=unparse(n["func"]).replace(" ", ""),
+                    args=[unparse(a).replace(" ", "") for a in n["args"]],
+                    node=n,
+                    conds=list(conds),
+                    loops=loops,
+                    unsafe=unsafe,
+                )
+            )
+            return
+        for v in children(n):
+            rec(v, conds, loops, unsafe)
+
+    rec(body, [], 0, False)
+    for i, c in enumerate(out):
+        c["i"] = i
+    return out
